@@ -92,8 +92,10 @@ def generate(rng, tier, index):
     for k in sorted(led_cuts):
         faults.append({"kind": "trunc", "file": prod.led, "at": k})
     vsize = len(prod.files[prod.vol])
+    # the volume directory is made of 360-byte records: two of its record boundaries every run
+    vbounds = list(range(360, vsize, 360))
     for k in sorted({rng.choice([0, 1, 359, 360, 361, vsize - 360, vsize - 1]),
-                     rng.randrange(vsize)}):
+                     rng.randrange(vsize)} | set(rng.sample(vbounds, min(2, len(vbounds))))):
         faults.append({"kind": "trunc", "file": prod.vol, "at": k})
     if wp["backend"] in world.RECORDED:
         # an I/O error on the n-th read request of one file (the storage answers EIO once)
